@@ -13,6 +13,8 @@ import ast
 import copy
 
 MAX_DEPTH = 4
+# helpers that are anchors of rules in their own right (the bounded look-around of the lexer): always left as calls
+NO_INLINE = {"_prev_char", "_next_char"}
 
 
 def clone(node):
@@ -79,8 +81,10 @@ class _Sub(ast.NodeTransformer):
 def _callee(repo, cls, module, call, public=True):
     """(fn, drop_first) of a resolvable helper call, or None"""
     f = call.func
+    nm = f.attr if isinstance(f, ast.Attribute) else getattr(f, "id", "")
+    if nm in NO_INLINE:
+        return None
     if not public:
-        nm = f.attr if isinstance(f, ast.Attribute) else getattr(f, "id", "")
         if not nm.startswith("_") or nm.startswith("__"):
             return None
     if isinstance(f, ast.Attribute) and isinstance(f.value, ast.Name):
@@ -141,6 +145,9 @@ def inline_expr(repo, cls, module, e, depth=0, log=None, public=False):
     return inline_expr(repo, cls, module, new, depth + 1, log, public=public)
 
 
+_tail_counter = [0]
+
+
 def _tail_inline(repo, cls, module, stmts, log, depth=0):
     """`return helper(a, b)` where helper is a private function/method of several statements and the arguments are
     plain names/constants/attributes: replaced by the helper's body with the arguments substituted (the helper's
@@ -154,17 +161,28 @@ def _tail_inline(repo, cls, module, stmts, log, depth=0):
             fname = call.func.attr if isinstance(call.func, ast.Attribute) else getattr(call.func, "id", "")
             if c is not None and fname.startswith("_") and not fname.startswith("__"):
                 hfn, drop = c
-                simple = all(isinstance(a, (ast.Name, ast.Constant)) or
-                             (isinstance(a, ast.Attribute) and isinstance(a.value, ast.Name)) for a in call.args) and \
-                    all(isinstance(k.value, (ast.Name, ast.Constant)) for k in call.keywords)
-                binding = _binding(hfn, call, drop) if simple else None
+                is_simple = lambda a: isinstance(a, (ast.Name, ast.Constant)) or (isinstance(a, ast.Attribute) and isinstance(a.value, ast.Name))
+                binding = _binding(hfn, call, drop) if not any(isinstance(a, ast.Starred) for a in call.args) else None
+                pre = []
+                if binding is not None:
+                    # an argument that is not a plain name is evaluated once, before the body, into a fresh local
+                    # (arguments are evaluated left to right before the callee runs; defaults are constants)
+                    _tail_counter[0] += 1
+                    passed = [id(a) for a in call.args] + [id(k.value) for k in call.keywords]
+                    for pname in list(binding):
+                        a = binding[pname]
+                        if id(a) in passed and not is_simple(a):
+                            tmp = f"{pname}__{hfn.name}{_tail_counter[0]}"
+                            pre.append(ast.copy_location(ast.Assign(targets=[ast.Name(id=tmp, ctx=ast.Store())], value=a), st))
+                            binding[pname] = ast.Name(id=tmp, ctx=ast.Load())
                 body = [b for b in hfn.body if not (isinstance(b, ast.Expr) and isinstance(b.value, ast.Constant))]
                 stores = {n.id for b in body for n in ast.walk(b) if isinstance(n, ast.Name) and isinstance(n.ctx, ast.Store)}
                 inner = any(isinstance(n, (ast.FunctionDef, ast.Lambda, ast.ClassDef, ast.Yield, ast.YieldFrom)) for b in body for n in ast.walk(b))
                 ends_ok = bool(body) and isinstance(body[-1], (ast.Return, ast.Raise, ast.Try, ast.If))
-                if binding is not None and body and not (stores & set(binding)) and not inner and ends_ok \
+                argnames = {n.id for v_ in (binding or {}).values() for n in ast.walk(v_) if isinstance(n, ast.Name)} if binding else set()
+                if binding is not None and body and not (stores & set(binding)) and not (stores & argnames) and not inner and ends_ok \
                         and thin_return(hfn) is None:
-                    new = [_Sub(binding).visit(clone(b)) for b in body]      # statements keep their own positions
+                    new = pre + [_Sub(binding).visit(clone(b)) for b in body]      # statements keep their own positions
                     if log is not None:
                         log.append(hfn.name)
                     new, _ = _tail_inline(repo, cls, module, new, log, depth + 1)
